@@ -254,7 +254,8 @@ def _single(repo, col, fi, ex):
     seed = t.args[1] if len(t.args) > 1 else None
     src = None
     for n in walk_no_nested(fi.node):
-        if isinstance(n, ast.Assign) and isinstance(n.targets[0], ast.Name) and "concatenate" in unparse(n.value) and \
+        if isinstance(n, ast.Assign) and isinstance(n.targets[0], ast.Name) and \
+                T.find(ex.term(n.value), lambda y: y.op == "mcall" and y.name == "concatenate") is not None and \
                 T.find(ex.term(n.value), lambda y: y.op == "call" and y.name == "nested_checkpoint_scan") is not None:
             tt = ex.term(n.value)
             cat = T.find(tt, lambda x: x.op == "mcall" and x.name == "concatenate")
